@@ -65,7 +65,14 @@ class Prop:
             for _ in range(rng.randint(2, 8)):
                 r = rng.random()
                 if r < 0.35:
-                    parts.append([('w',) + self.wrapper(rng, True, second)])
+                    w = self.wrapper(rng, True, second)
+                    q = rng.random()
+                    if q < 0.15:
+                        # a wrapper line may carry a tag block like any sentence - also one without checksum
+                        w = (gen.tag_block(b's:gh%d,c:%d' % (rng.randint(0, 9), rng.randint(1, 10 ** 9))) + w[0], w[1], w[0])
+                    elif q < 0.3:
+                        w = (rng.choice([b'\\s:x,c:123\\', b'\\*\\', b'\\s:y*ZZ\\']) + w[0], w[1], w[0])
+                    parts.append([('w',) + w])
                 elif r < 0.5:
                     parts.append([('x',) + self.wrapper(rng, False, second)])
                 elif r < 0.7:
@@ -85,14 +92,30 @@ class Prop:
                     rng.shuffle(lines)
                     parts.append([('m%d' % seq_no, l, n) for l in lines])
             cases.append(gen.random_interleaving(rng, parts) if rng.random() < 0.6 else [x for p in parts for x in p])
-        for fe in ('iter', 'bytestream', 'queue'):
-            ops = ['stream %s 0 %s' % (fe, ' '.join(impl.hx(l[1]) for l in case)) for case in cases]
+        for fe in ('iter', 'bytestream', 'queue', 'iter+tbq', 'queue+tbq', 'bytestream+tbq', 'socket'):
+            if fe == 'socket':
+                # the same lines through the socket front-end, cut into random pieces (a line may arrive in
+                # three or more of them)
+                ops = []
+                for case in cases[::3]:
+                    stream = b''.join(l[1] + b'\r\n' for l in case)
+                    k = rng.choice([0, 2, 7, 25, len(stream) // 9 + 1])
+                    cuts = sorted(set(rng.sample(range(1, len(stream)), min(k, len(stream) - 1))))
+                    pts = [0] + cuts + [len(stream)]
+                    ops.append('socket 0 ' + ' '.join(stream[a:b].hex() for a, b in zip(pts, pts[1:])))
+                sub = cases[::3]
+            else:
+                sub = cases if '+' not in fe else cases[::2]
+                ops = ['stream %s %d %s' % (fe.split('+')[0], 1 if '+' in fe else 0, ' '.join(impl.hx(l[1]) for l in case))
+                       for case in sub]
             outs = ctx.corr(ops, impl.step, 'stream-' + fe, nontrivial=lambda l, o: ' w=24' in o)
-            for case, o in zip(cases, outs):
+            cases_fe = sub
+            for case, o in zip(cases_fe, outs):
                 pending, exp, seen = None, [], {}
-                for i, (kind, line, extra) in enumerate(case):
+                bare = {x[1]: x[3] for x in case if len(x) > 3}
+                for i, (kind, line, extra, *_) in enumerate(case):
                     if kind == 'w':
-                        pending = show_wrapper(line, extra)
+                        pending = show_wrapper(bare.get(line, line), extra)
                     elif kind == 'x':
                         pass
                     elif kind == 's':
@@ -104,6 +127,8 @@ class Prop:
                             exp.append((i, pending or 'N'))
                             pending = None
                 got = [(i, w) for i, _, w in parse_out(o)]
+                if fe == 'socket':
+                    got, exp = [(0, w) for _, w in got], [(0, w) for _, w in exp]     # no positions through a socket
                 if got != exp:
                     ctx.fail('wrapper attachment differs from "the latest valid wrapper since the previous delivery, '
                              'attached to the next delivered message only"',
